@@ -207,9 +207,9 @@ This decides `no new unaudited panic/recursion/loop site`, the enumerated necess
         m
     });
     ctx.extra.insert("sites_by_kind".into(), json!(kinds));
-    ctx.floor("C08.panic/sites", sites.len(), 112);
-    ctx.floor("C08.panic/explicit", *kinds.get("explicit").unwrap_or(&0), 13);
-    ctx.floor("C08.panic/unwrap", *kinds.get("unwrap").unwrap_or(&0), 24);
+    ctx.floor("C08.panic/sites", sites.len(), 108);
+    ctx.floor("C08.panic/explicit", *kinds.get("explicit").unwrap_or(&0), 8);
+    ctx.floor("C08.panic/unwrap", *kinds.get("unwrap").unwrap_or(&0), 22);
 
     // positive control: the classifier must recognise the canonical shapes
     for (callee, macros, want) in [
